@@ -498,6 +498,10 @@ func (x *Exec) workerDied(err error) bool {
 		// the race leg: gengo (or a generator) accessed memory from two goroutines without synchronisation
 		x.W = nil
 		x.wedged = true
+		if dir := os.Getenv("VERIF_KEEP_RACE_REPORTS"); dir != "" {
+			_ = os.MkdirAll(dir, 0o755)
+			_ = os.WriteFile(filepath.Join(dir, fmt.Sprintf("race-%d.txt", time.Now().UnixNano())), []byte(raceErr.Report), 0o644) // debugging aid
+		}
 		x.violate(x.Sc.Property, "R1", "data-race", raceSummary(raceErr.Report), nil)
 		return true
 	}
